@@ -146,6 +146,7 @@ pub fn gen_pair(ch: &mut Choices, id: u64) -> Option<Pair> {
         strata: [5, 2, 1, 3],
         precedence: true,
         avoid_insert: true,
+        pad_tokens: false,
     };
     let ag = gen_grammar(ch, &o);
     // domain: tables on which the plain LR loop always terminates
